@@ -5,6 +5,7 @@ import (
 	"go/ast"
 	"go/constant"
 	"go/types"
+	"strings"
 
 	"golang.org/x/tools/go/callgraph"
 	"golang.org/x/tools/go/packages"
@@ -121,3 +122,96 @@ func cgReach(cg *callgraph.Graph, fn *ssa.Function) map[*ssa.Function]bool {
 }
 
 var _ = types.Identical
+
+// globalLeaves evaluates the composite literal that initialises a package-level array/struct variable into its scalar
+// leaves: path ("3.f1.") -> constant. Only constant leaves are returned; ok=false if the initialiser is not a literal
+// or the variable is stored to anywhere (then it is not a table).
+func (p *Prog) globalLeaves(g *ssa.Global) (map[string]constant.Value, bool) {
+	if g == nil || g.Pkg == nil {
+		return nil, false
+	}
+	e, pk, err := p.varInit(g.Pkg, g.Name())
+	if err != nil {
+		return nil, false
+	}
+	cl, ok := e.(*ast.CompositeLit)
+	if !ok {
+		return nil, false
+	}
+	for _, fn := range p.RepoFuncs() {
+		for _, gs := range globalStores(fn) {
+			if gs.G == g && !strings.HasPrefix(fn.Name(), "init") {
+				return nil, false
+			}
+		}
+	}
+	out := map[string]constant.Value{}
+	var walk func(cl *ast.CompositeLit, t types.Type, prefix string) bool
+	walk = func(cl *ast.CompositeLit, t types.Type, prefix string) bool {
+		switch u := t.Underlying().(type) {
+		case *types.Array:
+			next := int64(0)
+			for _, el := range cl.Elts {
+				idx := next
+				val := el
+				if kv, ok := el.(*ast.KeyValueExpr); ok {
+					kvv := pk.TypesInfo.Types[kv.Key].Value
+					if kvv == nil {
+						return false
+					}
+					idx, _ = constant.Int64Val(constant.ToInt(kvv))
+					val = kv.Value
+				}
+				next = idx + 1
+				pfx := prefix + fmt.Sprintf("%d.", idx)
+				if sub, ok := val.(*ast.CompositeLit); ok {
+					if !walk(sub, u.Elem(), pfx) {
+						return false
+					}
+				} else if cv := pk.TypesInfo.Types[val].Value; cv != nil {
+					out[pfx] = cv
+				}
+			}
+			return true
+		case *types.Struct:
+			for i, el := range cl.Elts {
+				fi := i
+				val := el
+				if kv, ok := el.(*ast.KeyValueExpr); ok {
+					id, isID := kv.Key.(*ast.Ident)
+					if !isID {
+						return false
+					}
+					fi = -1
+					for k := 0; k < u.NumFields(); k++ {
+						if u.Field(k).Name() == id.Name {
+							fi = k
+						}
+					}
+					val = kv.Value
+				}
+				if fi < 0 || fi >= u.NumFields() {
+					return false
+				}
+				pfx := prefix + fmt.Sprintf("f%d.", fi)
+				if sub, ok := val.(*ast.CompositeLit); ok {
+					if !walk(sub, u.Field(fi).Type(), pfx) {
+						return false
+					}
+				} else if cv := pk.TypesInfo.Types[val].Value; cv != nil {
+					out[pfx] = cv
+				}
+			}
+			return true
+		}
+		return false
+	}
+	t := g.Type()
+	if pt, ok := t.Underlying().(*types.Pointer); ok {
+		t = pt.Elem()
+	}
+	if !walk(cl, t, "") {
+		return nil, false
+	}
+	return out, true
+}
